@@ -301,6 +301,11 @@ func (i *instance) HAProxyUpdate(timer *utils.Timer) error {
 	//
 	defer i.config.Commit()
 	i.config.SyncConfig()
+	if i.options.SortEndpointsBy != "random" {
+		// the endpoints of the former backends are already sorted,
+		// they are compared with the new ones below
+		i.config.Backends().SortChangedEndpoints(i.options.SortEndpointsBy)
+	}
 	i.config.Shrink()
 	if err := i.config.WriteTCPServicesMaps(); err != nil {
 		i.metrics.IncUpdateNoop()
